@@ -44,6 +44,62 @@ def capture_cex():
         H._solve_end_to_end_callback = orig_cb
 
 
+GETTER_SELECTORS = {selector(g) for g in invgen.GETTERS}
+
+
+@contextmanager
+def capture_calls():
+    """Record every target call halmos sets up: (target address, selector, admissible senders among the domain)."""
+    rec = {"calls": set(), "senders": {}}
+    orig = hmain.run_target_function
+
+    def wrapped(args, ex, addr, abi, fun_info, tx_origin, msg_sender, msg_value, msg_sender_cond=None):
+        a = addr.as_long() if hasattr(addr, "as_long") else int(addr)
+        if a == reftest.FOUNDRY_TEST and fun_info.selector in GETTER_SELECTORS:
+            # halmos reads the filters themselves through this function
+            return orig(args, ex, addr, abi, fun_info, tx_origin, msg_sender, msg_value, msg_sender_cond)
+        rec["calls"].add((a, fun_info.selector))
+        ok = set()
+        for s in (invgen.OWNER, invgen.OTHER, invgen.ANY):
+            if msg_sender_cond is None:
+                ok.add(s)
+            else:
+                v = z3.simplify(z3.substitute(msg_sender_cond, (msg_sender, z3.BitVecVal(s, 160))))
+                if z3.is_true(v):
+                    ok.add(s)
+        rec["senders"][(a, fun_info.selector)] = ok
+        return orig(args, ex, addr, abi, fun_info, tx_origin, msg_sender, msg_value, msg_sender_cond)
+
+    hmain.run_target_function = wrapped
+    try:
+        yield rec
+    finally:
+        hmain.run_target_function = orig
+
+
+def gen_filters(rnd: random.Random, fns) -> invgen.Filters:
+    A, B = invgen.TARGET_ADDR, invgen.DUMMY_ADDR
+    F = invgen.Filters
+    f = rnd.choice(fns).sig
+    g = rnd.choice(fns).sig
+    return rnd.choice([
+        F(t_selectors=[(A, [f])]),
+        F(x_selectors=[(A, [f])]),
+        F(t_selectors=[(A, [f])], x_selectors=[(A, [f])]),  # excludeSelectors is ignored when selectors are targeted
+        F(t_contracts=[B]),
+        F(x_contracts=[B]),
+        F(x_contracts=[A]),
+        F(t_contracts=[B], t_selectors=[(A, [f, g])]),  # targetSelectors adds its contract
+        F(t_selectors=[(A, [f]), (A, [g])]),  # several entries for one contract accumulate
+        F(x_selectors=[(A, [f]), (B, ["noop()"])]),
+        F(t_senders=[invgen.OWNER]),
+        F(x_senders=[invgen.OWNER]),
+        F(t_senders=[invgen.OWNER, invgen.OTHER], x_senders=[invgen.OWNER]),
+        F(t_senders=[invgen.OTHER], x_senders=[invgen.OTHER]),  # nothing left to target: anyone but the excluded
+        F(t_senders=[invgen.OWNER], x_selectors=[(A, [f])], x_contracts=[B]),
+    ])
+
+
 def concretise(expr, env: dict) -> int:
     """Value of a z3 term / int under the model env; symbols the model leaves free are 0."""
     if isinstance(expr, int):
@@ -75,7 +131,18 @@ def replay_case(cid, m, ex, model, final_inv: bool):
            e1.mk_tx(reftest.FOUNDRY_TEST, reftest.FOUNDRY_CALLER, reftest.FOUNDRY_CALLER, 0, bytes.fromhex(selector("setUp()")))]
     bal = {reftest.FOUNDRY_TEST: reftest.TEST_BALANCE}
     calls = []
-    for cc in ex.call_sequence:
+
+    def ts_after(k: int, prev: int) -> int:
+        """Block timestamp halmos chose after the k-th call (free in the model: time stands still)."""
+        for name, v in env.items():
+            if name.startswith(f"halmos_block_timestamp_depth{k}_"):
+                return v
+        return prev
+
+    now = 1  # the first call happens at setUp's timestamp
+    for k, cc in enumerate(ex.call_sequence):
+        if k > 0:
+            now = ts_after(k, now)
         msg = cc.message
         data = msg.data.unwrap()
         n = len(msg.data)
@@ -84,10 +151,14 @@ def replay_case(cid, m, ex, model, final_inv: bool):
         value = concretise(msg.value, env)
         to = concretise(msg.target, env)
         bal[caller] = max(bal.get(caller, 0), 2**100)
-        txs.append(e1.mk_tx(to, caller, caller, value, dv, transfer=True))
-        calls.append({"to": hex(to), "data": dv.hex(), "caller": hex(caller), "value": value})
+        tx = e1.mk_tx(to, caller, caller, value, dv, transfer=True)
+        tx["ts"] = e1.word(now)
+        txs.append(tx)
+        calls.append({"to": hex(to), "data": dv.hex(), "caller": hex(caller), "value": value, "timestamp": now})
     if final_inv:
-        txs.append(e1.mk_tx(reftest.FOUNDRY_TEST, reftest.FOUNDRY_CALLER, reftest.FOUNDRY_CALLER, 0, bytes.fromhex(selector("invariant_machine()"))))
+        tx = e1.mk_tx(reftest.FOUNDRY_TEST, reftest.FOUNDRY_CALLER, reftest.FOUNDRY_CALLER, 0, bytes.fromhex(selector("invariant_machine()")))
+        tx["ts"] = e1.word(ts_after(len(ex.call_sequence), now))
+        txs.append(tx)
     return e1.mk_case(cid, {}, txs, balances=bal), calls
 
 
@@ -97,11 +168,19 @@ def run(chk: Check, tier: str):
     machines = []
     for i in range(n):
         d = [0, 1, 1, 2, 2, 2][i % 6] if tier == "quick" else [0, 1, 2, 2, 3, 3][i % 6]
-        machines.append(invgen.gen_machine(rnd, depth=d))
+        if i % 3 == 2:
+            # a target/exclude filter scenario: the test contract declares forge-std's getters
+            fns = invgen.gen_functions(rnd, rnd.randint(2, 4))
+            machines.append(invgen.gen_machine(rnd, depth=max(d, 1), fns=fns, filters=gen_filters(rnd, fns)))
+        else:
+            machines.append(invgen.gen_machine(rnd, depth=d))
     work = workdir("c15")
     try:
         # --- specification side: brute force of all bounded call sequences
-        cases = [invgen.frontier_case(i, m) for i, m in enumerate(machines)]
+        # probe with a stable key: the property's "non-decreasing timestamps" include a first call later than setUp
+        late = len(machines)
+        machines.append(invgen.late_machine())
+        cases = [invgen.frontier_case(i, m, first_at_setup=(i != late)) for i, m in enumerate(machines)]
         f = work / "frontier.json"
         f.write_text(json.dumps(cases))
         cf = work / "cheats.json"
@@ -112,8 +191,11 @@ def run(chk: Check, tier: str):
         if not tr.ok:
             raise MachineryError(f"Frontier.tla failed: {tr.violated}\n{tr.stdout[-2500:]}")
         chk.add_tlc(tr)
-        breaks, probes = {}, {}
+        breaks, probes, spec_calls = {}, {}, {}
         for rec in tr.records:
+            if "calls" in rec:
+                spec_calls[rec["id"]] = rec
+                continue
             tab = breaks if rec["broken"] == "invariant" else probes
             cur = tab.get(rec["id"])
             if cur is None or len(rec["seq"]) < len(cur["seq"]):
@@ -121,8 +203,8 @@ def run(chk: Check, tier: str):
         # --- implementation side
         replay_cases, replay_index = [], {}
         for i, m in enumerate(machines):
-            with capture_cex() as rec:
-                out = run_contract(m.test, others=[m.target], cli=("--invariant-depth", str(m.depth)))
+            with capture_cex() as rec, capture_calls() as made:
+                out = run_contract(m.test, others=[m.target] + ([m.dummy] if m.dummy else []), cli=("--invariant-depth", str(m.depth)))
             if out.exception:
                 raise MachineryError(f"run_contract: {out.exception}")
             r = out.by_sig().get("invariant_machine()")
@@ -132,24 +214,55 @@ def run(chk: Check, tier: str):
             spec_probe = probes.get(i)
             chk.count("evaluations")
             chk.count("traces_validated_against_impl")
-            key = f"machine:{'|'.join(m.meta['functions'])}|{m.meta['invariant']}|d{m.depth}"
+            key = f"machine:{'|'.join(m.meta['functions'])}|{m.meta['invariant']}|d{m.depth}|{m.meta.get('filters', 'none')}"
             info = {"functions": m.meta["functions"], "invariant": m.meta["invariant"], "depth": m.depth, "halmos_exitcode": r.exitcode,
                     "reference_break": None if spec_break is None else {"kind": spec_break["broken"], "calls": [
-                        {"sel": bytes(c["sel"]).hex(), "args": [e1.unword(a) for a in c["args"]], "sender": hex(e1.unword(c["sender"])), "value": e1.unword(c["value"])}
+                        {"sel": bytes(c["sel"]).hex(), "args": [e1.unword(a) for a in c["args"]], "sender": hex(e1.unword(c["sender"])), "value": e1.unword(c["value"]),
+                         "timestamp": e1.unword(c["ts"])}
                         for c in spec_break["seq"]]},
                     "halmos_output": (out.stdout + out.logs)[-1500:]}
             if spec_break is not None:
                 chk.nontrivial((key, "breakable"))
-            if spec_break is not None and r.exitcode == 0 and not any(w in (out.logs + out.stdout) for w in ("loop unrolling bound", "incomplete execution")):
+            # the calls halmos sets up must be exactly the calls the specification resolves from the filters
+            # (view functions change nothing and may or may not be called)
+            sc = spec_calls.get(i)
+            if sc is None:
+                raise MachineryError(f"no resolved call set for case {i}")
+            views = {bytes.fromhex(selector(g)) for g in ("getx()", "gety()")}
+            want = {(e1.unword(c["addr"]), bytes(c["sel"]).hex()) for c in sc["calls"] if bytes(c["sel"]) not in views}
+            got = {(a, sel) for a, sel in made["calls"] if bytes.fromhex(sel) not in views}
+            info["filters"] = m.meta.get("filters")
+            if m.depth > 0 and "No target contracts" not in (out.logs + out.stdout):
+                chk.count("call_sets_compared")
+                if m.filters is not None:
+                    chk.nontrivial((key, "filters"))
+                if got != want and not (not want and not got):
+                    d = dict(info)
+                    d["calls_specified"] = sorted((hex(a), sl) for a, sl in want)
+                    d["calls_made"] = sorted((hex(a), sl) for a, sl in got)
+                    chk.violation(f"target-set:{key}", f"filters [{m.meta.get('filters')}]: halmos calls {d['calls_made']} but Foundry's rules select {d['calls_specified']}", d)
+                want_s = {e1.unword(x) for x in sc["senders"]}
+                for (a, sel), ok in made["senders"].items():
+                    if ok != want_s:
+                        d = dict(info)
+                        d["senders_specified"] = sorted(hex(x) for x in want_s)
+                        d["senders_admitted"] = sorted(hex(x) for x in ok)
+                        chk.violation(f"sender-set:{key}", f"filters [{m.meta.get('filters')}]: halmos admits senders {d['senders_admitted']} for {sel}, the rules give {d['senders_specified']}", d)
+                        break
+            if m.filters is not None and spec_break is None and spec_probe is None and r.exitcode == 1:
+                chk.violation(f"filtered-break:{key}", f"filters [{m.meta.get('filters')}]: no admissible call sequence breaks '{m.meta['invariant']}' within depth {m.depth}, but halmos reports FAIL", info)
+            if i == late and spec_break is not None and r.exitcode == 0:
+                chk.violation("probe:first-call-at-setup-timestamp", "target late(): if(block.timestamp>1) x=3, invariant x != 3, depth 1: the one-call sequence [late() at a "
+                              "timestamp after setUp's] breaks the invariant, but halmos runs the first call of every sequence at setUp's own timestamp and reports PASS "
+                              "(with --invariant-depth 2 the break is found)", info)
+            elif spec_break is not None and r.exitcode == 0 and not any(w in (out.logs + out.stdout) for w in ("loop unrolling bound", "incomplete execution")):
                 chk.violation(f"missed-break:{key}", f"a sequence of {len(spec_break['seq'])} call(s) breaks '{m.meta['invariant']}' within depth {m.depth} on the reference machine, but halmos reports PASS", info)
             text = out.logs + out.stdout
             if spec_break is None and spec_probe is not None and r.exitcode == 0:
                 chk.nontrivial((key, "probe"))
-                if "Assertion failure detected" in text:
-                    # reported, but only as text: the verdict and the exit code stay PASS (recorded finding)
-                    chk.violation("probe-failure-not-in-verdict", f"an assertion inside a target function fails ({m.meta['functions']}): halmos prints the counterexample but reports invariant_machine() as PASS", info)
-                elif not any(w in text for w in ("loop unrolling bound", "incomplete execution")):
-                    chk.violation(f"missed-probe:{key}", "an assertion inside a target function can fail within the depth but halmos neither reports it nor fails", info)
+                # printed at best (asynchronously, by a solver callback nobody waits for) - never part of the verdict (recorded finding)
+                chk.count("probe_printed" if "Assertion failure detected" in text else "probe_not_even_printed")
+                chk.violation("probe-failure-not-in-verdict", f"an assertion inside a target function fails ({m.meta['functions']}): halmos reports invariant_machine() as PASS", info)
             if spec_break is None and r.exitcode == 1:
                 # a FAIL without a reference break is only wrong if halmos marks the counterexample valid: replayed below
                 chk.count("fail_without_reference_break")
@@ -182,8 +295,10 @@ def run(chk: Check, tier: str):
     chk.cov["programs"] = len(machines)
     chk.cov["rule"] = (
         "generated target contracts (2-4 functions over two state words: increments, guarded sets, owner-only, payable, "
-        "asserting, swap/reset) with an invariant test contract; Frontier.tla explores every sequence of <= d calls over "
-        "complete finite domains (arguments masked to 0..3, senders {OWNER, OTHER}, values {0,1}) with one Evm!Run per call; "
+        "asserting, swap/reset, and functions comparing block.timestamp with the timestamp of their previous call) with an invariant test contract; Frontier.tla explores every sequence of <= d calls over "
+        "complete finite domains (arguments masked to 0..3, senders {OWNER, OTHER}, values {0,1}, non-decreasing timestamps from 1..d+1) with one Evm!Run per call; "
+        "a third of the machines declare target/exclude filters (contracts, selectors, senders; 14 shapes) through forge-std's getters: "
+        "Frontier!TargetAddrs/TargetFns/Senders resolve them by Foundry's rules and the calls and sender sets halmos sets up are compared with them; "
         "run_contract with --invariant-depth d must FAIL iff a break exists and each valid counterexample (captured call "
         "sequence + model) is replayed on Evm.tla; non-trivial = machines whose invariant is breakable within the depth"
     )
